@@ -22,7 +22,11 @@ Outcome(r, k) == IF InPlace(T.hist[k].op) THEN <<T.runs[r].steps[k].result, T.ru
                  ELSE <<T.runs[r].steps[k].result>>
 V ==
     LET R == DOMAIN T.runs  K == DOMAIN T.hist
-        frames == {<<r, k>> \in R \X K : Frame(r, k) # ""}
+        \* appending a marker to a list of g.epidata is the user's own edit of a list, not a library call: the library shares
+        \* marker lists between a transformation's (or a union's) result and its argument (O16), so the edit may show in both;
+        \* reported as drift.  Every library call is held to its frame.
+        frames == {<<r, k>> \in R \X K : Frame(r, k) # "" /\ T.hist[k].op # "add_marker"}
+        shared == \E r \in R : \E k \in K : Frame(r, k) # "" /\ T.hist[k].op = "add_marker"
     IN IF \E r \in R : T.runs[r].exc # "" THEN <<"REJECT", "replay-failed " \o T.runs[CHOOSE r \in R : T.runs[r].exc # ""].exc>>
        ELSE IF frames # {} THEN LET p == CHOOSE x \in frames : TRUE IN
             <<"REJECT", Frame(p[1], p[2]) \o " @ " \o T.hist[p[2]].op \o " step " \o ToString(p[2]) \o " run " \o T.runs[p[1]].env>>
@@ -34,6 +38,7 @@ V ==
             THEN <<"REJECT", "result-changed-by-what-the-caller-did-to-an-earlier-result @ " \o T.hist[CHOOSE k \in K : T.runs[1].steps[k].again # T.runs[1].steps[k].result].op>>
        ELSE IF \E r \in R : T.runs[r].steps # T.runs[1].steps
             THEN <<"REJECT", "runs-differ-across-hash-seeds-or-processes @ " \o T.runs[CHOOSE r \in R : T.runs[r].steps # T.runs[1].steps].env>>
+       ELSE IF shared THEN <<"DRIFT", "a marker list is shared between two graphs (O16)">>
        ELSE <<"ACCEPT", "">>
 CliV == IF \E i \in DOMAIN T.outs : T.outs[i] # T.outs[1] THEN <<"REJECT", "command-output-differs-across-hash-seeds">> ELSE <<"ACCEPT", "">>
 \* kind = "plaincall": a documented call with a mutable plain argument (a set of names, a list of triples, tables)
